@@ -28,8 +28,8 @@ ASSUMPTIONS = [
     "a back-end gate call with negated first parameter is the inverse of the call (Gate.apply's dagger rule); "
     "validated per natively applied gate class and back end on every run",
     "shots = 1, hbar = 2; TDM programs, batching and the TensorFlow back end are outside the model",
-    "theorem concat_compositional_partial assumes a non-bosonic back end (bosonic: known finding) and structural "
-    "well-formedness of the programs (open measured dependencies refer to subsystems of the first program's register)",
+    "theorem concat_compositional assumes structural well-formedness of the programs (open measured dependencies refer "
+    "to subsystems of the first program's register) and, on the bosonic engine, a non-empty first program",
 ]
 TRUSTED = ["modelled: BaseEngine._run / LocalEngine._run_program / BosonicBackend.run_prog prologue / reset, "
            "Operation.apply / Measurement.apply / Gate.apply / Gate.decompose, Program.compile (simulator compilers), "
@@ -50,7 +50,7 @@ def gen_session(rng, backend, cross=False):
     n = rng.randint(2 if backend == "bosonic" else 1, 3 if backend == "fock" else 4)
     nseg = rng.choice([1, 2, 2, 2, 3])
     use_free = rng.random() < 0.3
-    allow_newdel = backend != "bosonic" and rng.random() < 0.3
+    allow_newdel = rng.random() < 0.3     # (bosonic: only in later segments, see below)
     # 25% of the sessions contain measurements without `select` (random outcomes, recorded and replayed into the
     # model); their final states are not compared across patterns, everything else is
     randomised = rng.random() < 0.25
@@ -70,7 +70,7 @@ def gen_session(rng, backend, cross=False):
         for _ in range(L):
             live = [i for i, a in enumerate(active) if a]
             kinds = ["g1"] * 4 + ["prep", "chan", "meas", "meas"] + (["g2"] * 3 if len(live) >= 2 else [])
-            if allow_newdel:
+            if allow_newdel and not (backend == "bosonic" and j == 0):
                 kinds += ["new"] if len(active) < (4 if backend == "fock" else 5) else []
                 kinds += ["del"] if len(live) >= 2 else []
             kind = rng.choice(kinds)
@@ -122,7 +122,8 @@ def gen_session(rng, backend, cross=False):
                         ever_measured.append(r)
             seg.append(op)
         segs.append(seg)
-    spec = dict(backend=backend, n=n, opts=OPTS[backend], segs=segs, args={"a": 0.25} if use_free else {})
+    spec = dict(backend=backend, n=n, opts=OPTS[backend], segs=segs, args={"a": 0.25} if use_free else {},
+                share=rng.random() < 0.4)
     need = er.needs_succ(spec)
     spec["succ"] = [need[j] or (j > 0 and rng.random() < 0.5) for j in range(nseg)]
     if any(need) and rng.random() < 0.35:
@@ -164,6 +165,80 @@ def gen_evolving(rng, backend):
     if rng.random() < 0.4:
         segs.append([g(rng.choice(live))])
     return dict(backend=backend, n=n, opts=OPTS[backend], segs=segs, args={}, succ=[False] + [True] * (len(segs) - 1))
+
+
+def gen_bosonic_nongauss(rng):
+    """bosonic engine, non-Gaussian preparation in a LATER program: refused with NotImplementedError (the
+    initialisation pass that handles such preparations only runs for the first program) -- known finding"""
+    n = rng.randint(2, 3)
+    m = rng.randrange(n)
+    return dict(backend="bosonic", n=n, opts={}, args={}, succ=[False, rng.random() < 0.5],
+                segs=[[dict(cls="Dgate", regs=[rng.randrange(n)], pars=[0.25, 0.5])],
+                      [dict(cls=rng.choice(["Fock", "Catstate"]), regs=[m], pars=[1]), dict(cls="Rgate", regs=[m], pars=[0.375])]])
+
+
+def gen_runopts(rng, backend):
+    """run options: `shots` as keyword and/or in the programs' run_options (the last program of a list wins, the
+    keyword wins over both), `modes` (None, [], a selection in arbitrary order); measurements without select so that
+    several shots are legal, plus (30%) a select / a feed-forward that makes LocalEngine.run refuse several shots.
+    Patterns differ BY DESIGN here (a list merges the options of all its programs), so only the correspondence, the
+    snapshot and the can_follow oracles look at these sessions."""
+    n = rng.randint(2, 3)
+    g = lambda m: dict(cls="Rgate", regs=[m], pars=[pg.dyadic(rng, -6, 6, nonzero=True)], dagger=rng.random() < 0.3)
+    d = lambda m: dict(cls="Dgate", regs=[m], pars=[pg.dyadic(rng, -2, 2, nonzero=True) / 2, 0.25])
+    def meas():
+        if backend == "gaussian" and rng.random() < 0.4:
+            return dict(cls="MeasureFock", regs=rng.sample(range(n), rng.randint(1, 2)), pars=[])
+        return dict(cls="MeasureHomodyne", regs=[rng.randrange(n)], pars=[rng.choice([0.0, 0.25])])
+    nseg = rng.choice([1, 2, 2, 2, 3])
+    segs = [[d(rng.randrange(n)), g(rng.randrange(n))] + [meas() for _ in range(rng.randint(1, 2))] for _ in range(nseg)]
+    bad = rng.random() < 0.25
+    if bad:
+        sg = rng.choice(segs)
+        if rng.random() < 0.5:
+            sg.append(dict(cls="MeasureHomodyne", regs=[0], pars=[0.0], select=rng.choice([0.0, 0.5])))   # 0.0 is a selection too
+        else:
+            sg += [dict(cls="MeasureHomodyne", regs=[1], pars=[0.0]), dict(cls="Dgate", regs=[0], pars=[dict(m=1, k=1), 0.0])]
+    kw = {}
+    if rng.random() < 0.35:
+        kw["shots"] = rng.choice([1, 2, 3])
+    if rng.random() < 0.6:
+        kw["modes"] = rng.choice([[], [0], rng.sample(range(n), 2), None])
+    return dict(backend=backend, n=n, opts=OPTS[backend], args={}, segs=segs, succ=[False] * nseg, run_kw=kw,
+                prog_shots=[rng.choice([None, 2, 3, 4]) for _ in range(nseg)], noncomparable=True)
+
+
+def gen_history(rng, backend):
+    """register histories that `can_follow` must tell apart / accept:
+    v1: p1 deletes its last subsystem, p2 is built INDEPENDENTLY over the remaining live modes (same live modes, other
+        deletion history) -> must be rejected;
+    v2: one fragment New -> gate -> Del run twice (run([p, p])) -> the second pass must be rejected;
+    v3: one fragment without New/Del (measurement + feed-forward inside) run two or three times -> accepted and equal
+        to the program with the commands repeated;
+    v4: p1 deletes a subsystem, p2 = Program(p1) successor (accepted), p3 independent over n modes (rejected)."""
+    n = rng.randint(2, 3)
+    g = lambda m: dict(cls="Rgate", regs=[m], pars=[pg.dyadic(rng, -6, 6, nonzero=True)], dagger=rng.random() < 0.3)
+    d = lambda m: dict(cls="Dgate", regs=[m], pars=[pg.dyadic(rng, -2, 2, nonzero=True) / 2, 0.25])
+    bs = lambda a, b: dict(cls="BSgate", regs=[a, b], pars=[0.375, 0.25], dagger=rng.random() < 0.3)
+    base = dict(backend=backend, n=n, opts=OPTS[backend], args={}, share=rng.random() < 0.5)
+    v = rng.choice(["v1", "v1", "v2", "v2", "v3", "v3", "v4"])
+    if v == "v1":
+        seg1 = [g(0)] + ([dict(cls="New", k=1), d(n - 1)] if rng.random() < 0.6 else [d(0)])
+        return dict(base, segs=[[d(rng.randrange(n)), dict(cls="Del", regs=[n - 1])], seg1], succ=[False, False],
+                    fresh=[None, n - 1])
+    if v == "v2":
+        frag = [dict(cls="New", k=1), d(n), bs(n, rng.randrange(n)), dict(cls="Del", regs=[n])]
+        return dict(base, segs=[frag], succ=[False], order=[0, 0])
+    if v == "v3":
+        m = rng.randrange(n)
+        t = rng.choice([x for x in range(n) if x != m])
+        frag = [d(m), bs(m, t), dict(cls="MeasureHomodyne", regs=[m], pars=[0.25], select=rng.choice([0.5, -0.25])),
+                dict(cls="Dgate", regs=[t], pars=[dict(m=m, k=rng.choice([1, -1, 0.5])), 0.0], dagger=rng.random() < 0.5), g(t)]
+        return dict(base, segs=[frag], succ=[False], order=[0] * rng.choice([2, 2, 3]))
+    dead = rng.randrange(n)
+    live = [x for x in range(n) if x != dead]
+    return dict(base, segs=[[g(dead), dict(cls="Del", regs=[dead])], [d(rng.choice(live))], [g(0), d(n - 1)]],
+                succ=[False, True, False])
 
 
 def cross_deps(spec):
@@ -211,12 +286,12 @@ def nontrivial(spec):
 
 # ------------------------------------------------------------------ running a pattern on the real engine
 
-def scripts(k):
-    ids = list(range(k))
+def scripts(ids):
+    ids = list(ids)
     return {
         "list": [dict(run=ids, aslist=True)],
         "seq": [dict(run=[i]) for i in ids],
-        "reset": [dict(run=[0]), dict(reset={}), dict(run=ids, aslist=True)],
+        "reset": [dict(run=[ids[0]]), dict(reset={}), dict(run=ids, aslist=True)],
         "rerun": [dict(run=ids, aslist=True), dict(fresh=True), dict(run=ids, aslist=True)],
     }
 
@@ -235,8 +310,8 @@ def exec_script(sf, spec, progs, script):
             if "run" in act:
                 ids = act["run"]
                 arg = [progs[i] for i in ids] if act.get("aslist") else progs[ids[0]]
-                res = eng.run(arg, args=run_args, compile_options=compile_options)
-                state = er.state_data(backend, res.state)
+                res = eng.run(arg, args=run_args, compile_options=compile_options, **dict(spec.get("run_kw") or {}))
+                state = None if res.state is None else er.state_data(backend, res.state)
             elif "reset" in act:
                 eng.reset(dict(act["reset"]))
             else:
@@ -258,7 +333,7 @@ def exec_script(sf, spec, progs, script):
     after = [er.snapshot(p) for p in progs]
     index = {id(p): i for i, p in enumerate(progs)}
     run_ids = [index.get(id(p.source if p.source is not None else p), -1) for p in eng.run_progs]
-    samples = None if eng.samples is None else [float(x) for x in np.asarray(eng.samples).reshape(-1)]
+    samples = None if eng.samples is None else [[float(x) for x in row] for row in np.asarray(eng.samples, dtype=float)]
     vals = [[None if r.val is None else [float(x) for x in np.atleast_1d(r.val)] for r in p.reg_refs.values()] for p in progs]
     return dict(steps=steps, err=err, in_call=in_call, run_ids=run_ids, samples=samples, vals=vals,
                 locked=[bool(p.locked) for p in progs], state=state, outcomes=outcomes,
@@ -272,14 +347,14 @@ def model_request(spec, script, outcomes, concat=False):
     ms = []
     for act in script:
         if "run" in act:
-            ms.append(dict(run=act["run"]))
+            ms.append(dict(run=act["run"], **{k: v for k, v in (spec.get("run_kw") or {}).items() if v is not None}))
         elif "reset" in act:
             ms.append(dict(reset=sorted([k, int(v)] for k, v in act["reset"].items())))
         else:
             ms.append(dict(fresh=sorted([k, int(v)] for k, v in spec["opts"].items())))
     return dict(op="eng.session", compiler=er.compiler_tables(spec["backend"]), backend=spec["backend"],
                 opts=sorted([k, int(v)] for k, v in spec["opts"].items()), progs=mprogs,
-                outcomes=[[er.rat(x) for x in o] for o in outcomes],
+                outcomes=[[[er.rat(x) for x in col] for col in o] for o in outcomes],
                 args=[[k, er.rat(v)] for k, v in spec["args"].items()], script=ms, nmodes=nm)
 
 
@@ -297,8 +372,28 @@ def compare_session(ctx, case, real, model):
     if any(s.get("err") in ("unmodelled", "fuel") for s in msteps):
         ctx.tally("corr:unmodelled")
         return
+    if real["err"] == "ValueError" and any("inhomogeneous" in (st.get("tb") or "") for st in real["steps"]):
+        # a back end returned another number of samples than `shots` for one of the measurements of a segment (e.g. the
+        # Gaussian homodyne returns one sample whatever `shots`): np.transpose of the ragged columns fails in
+        # _combine_and_sort_samples.  The model pads; numerics of the back ends are outside it.
+        ctx.tally("corr:ragged samples (back end ignored shots)")
+        return
     if real["err"] is not None and real["in_call"]:
-        ctx.tally("corr:backend-raised")      # the numerical back end itself raised: outside the model
+        # the numerical back end itself raised inside an API call: the model (which knows nothing about the numerics) must
+        # have reached that call -- no model-level error at or before this step, same calls up to the failing one
+        ctx.tally("corr:backend-raised")
+        ctx.corr_cases += 1
+        k = len(real["steps"]) - 1
+        if len(msteps) <= k or any("err" in ms for ms in msteps[:k + 1]):
+            ctx.disagree(pair + " (model refuses a step the engine carried on with until the back end raised)", case,
+                         [s.get("err", "ok") for s in msteps], [s.get("err", "ok") for s in real["steps"]])
+            return
+        for j in range(k + 1):
+            mc = [er.model_call(c) for c in msteps[j]["calls"]]
+            rc = real["steps"][j]["calls"]
+            if (j < k and len(mc) != len(rc)) or len(mc) < len(rc) or not all(er.same_call(a, b) for a, b in zip(mc, rc)):
+                ctx.disagree(pair + f" (call trace up to the back-end failure, step {j})", case, mc, rc)
+                return
         return
     ctx.corr_cases += 1
     f = lambda q: q[0] / q[1]
@@ -319,11 +414,12 @@ def compare_session(ctx, case, real, model):
     me = model["eng"]
     if me["runIds"] != real["run_ids"]:
         ctx.disagree(pair + " (run_progs)", case, me["runIds"], real["run_ids"])
-    msam = None if me["samples"] is None else [f(x) for x in me["samples"]]
-    if (msam is None) != (real["samples"] is None) or (msam is not None and not np.allclose(msam, real["samples"], atol=1e-9)
-                                                       and len(msam) == len(real["samples"])) \
-            or (msam is not None and len(msam) != len(real["samples"])):
-        ctx.disagree(pair + " (samples)", case, msam, real["samples"])
+    msam = None if me["samples"] is None else [[f(x) for x in row] for row in me["samples"]]
+    rsam = real["samples"]
+    same = (msam is None) == (rsam is None) and (msam is None or (
+        len(msam) == len(rsam) and all(len(a) == len(b) and np.allclose(a, b, atol=1e-9) for a, b in zip(msam, rsam))))
+    if not same:
+        ctx.disagree(pair + " (samples)", case, msam, rsam)
     if me["prev"] != real["prev"]:
         ctx.disagree(pair + " (register of the last program)", case, me["prev"], real["prev"])
     for i, wp in enumerate(model["world"]):
@@ -342,20 +438,30 @@ def compare_session(ctx, case, real, model):
 def one_session(ctx, sf, spec, reqs, pending, kinds=("list", "seq", "cat", "reset", "rerun")):
     backend = spec["backend"]
     k = len(spec["segs"])
-    sc = scripts(k)
+    sc = scripts(er.run_order(spec))
+    if spec.get("script"):
+        sc, kinds = {"custom": spec["script"]}, ("custom",)
+    coherent = er.coherent(spec)
+    allops = [o for j in er.run_order(spec) for o in spec["segs"][j]]
     results = {}
     case = dict(spec=spec)
     rp = dict(kind="session", spec=spec)
     ctx.count(f"session:{backend}:{k}seg", spec, nontrivial(spec), sample=spec)
     for pat in kinds:
-        if pat == "cat" and spec.get("mismatch"):
+        if pat == "cat" and (not coherent or spec.get("noncomparable")):
             continue
-        if pat == "cat":
-            progs = [er.build_concat(sf, spec)]
-            script = [dict(run=[0])]
-        else:
-            progs = er.build_segments(sf, spec)
-            script = sc[pat]
+        cache = {} if spec.get("share") else None      # shared Operation instances within and across the programs
+        try:
+            if pat == "cat":
+                progs = [er.build_concat(sf, spec, cache)]
+                script = [dict(run=[0])]
+            else:
+                progs = er.build_segments(sf, spec, cache)
+                script = sc[pat]
+        except Exception as e:  # noqa: BLE001  -- a valid spec must be constructible
+            ctx.fail(f"program-construction-raised:{type(e).__name__}", f"{backend}: building the programs of a valid session "
+                     f"({pat}) raised {type(e).__name__}: {e}", rp)
+            return
         real = exec_script(sf, spec, progs, script)
         results[pat] = real
         ctx.tally(f"pattern:{pat}:" + (real["err"] or "ok"))
@@ -375,7 +481,7 @@ def one_session(ctx, sf, spec, reqs, pending, kinds=("list", "seq", "cat", "rese
     # ---- (C) a measurement with `select` leaves exactly the selected value in its RegRef (concatenated program)
     if "cat" in results and results["cat"]["err"] is None:
         last = {}
-        for op in [o for sg in spec["segs"] for o in sg]:
+        for op in allops:
             if er.kind_of(op["cls"]) == "meas":
                 sel = op.get("select")
                 sel = sel if isinstance(sel, (list, tuple)) else [sel] * len(op["regs"])
@@ -385,13 +491,14 @@ def one_session(ctx, sf, spec, reqs, pending, kinds=("list", "seq", "cat", "rese
                 for r in op["regs"]:
                     last.pop(r, None)
         lastm = {}
-        for op in [o for sg in spec["segs"] for o in sg]:
+        for op in allops:
             if er.kind_of(op["cls"]) == "meas":
                 sel = op.get("select")
                 sel = sel if isinstance(sel, (list, tuple)) else [sel] * len(op["regs"])
                 lastm.update(dict(zip(op["regs"], sel)))
         want = [lastm[r] for r in sorted(lastm)]
         got = results["cat"]["samples"]
+        got = got if got is None else (got[0] if got else [])
         if want and None not in want:
             ctx.oracle_cases += 1
             if got is None or len(got) != len(want) or any(abs(a - b) > 1e-9 for a, b in zip(got, want)):
@@ -402,6 +509,58 @@ def one_session(ctx, sf, spec, reqs, pending, kinds=("list", "seq", "cat", "rese
             ctx.oracle_cases += 1
             if v is not None and (vals[r] is None or len(vals[r]) != 1 or abs(vals[r][0] - v) > 1e-9):
                 ctx.fail("selected-value-not-stored", f"{backend}: mode {r} was measured with select={v} but its RegRef holds {vals[r]}", rp)
+    # ---- (C) can_follow: a program is accepted after another exactly when its initial register (indices AND activity
+    # states, deleted subsystems included) is the final register of its predecessor -- in every sequencing pattern
+    fol = er.follows(spec)
+    for pat in ("list", "seq", "reset", "rerun"):
+        if pat not in results:
+            continue
+        ctx.oracle_cases += 1
+        err = results[pat]["err"]
+        if not all(fol) and err != "RuntimeError":
+            ctx.fail(f"cannot-follow-accepted:{pat}:{backend}", f"{backend}: pattern '{pat}' did not refuse (RuntimeError, register "
+                     f"mismatch) a program whose predecessor's final register (indices, activity) differs from the program's "
+                     f"initial one (follows={fol}); it " + ("ran it" if err is None else f"went on and raised {err}"), rp)
+        if all(fol) and err == "RuntimeError":
+            ctx.fail(f"can-follow-rejected:{pat}:{backend}", f"{backend}: pattern '{pat}' rejected a program whose initial register "
+                     "equals its predecessor's final register", rp)
+    if spec.get("expect_last_error"):
+        # spec-level truth: the last run reads a measured value no program of THIS engine session has produced
+        r = results.get("custom")
+        ctx.oracle_cases += 1
+        if r is not None and r["err"] != spec["expect_last_error"]:
+            ctx.fail("stale-measured-value", f"{backend}: a program read q[m].par although mode m was not measured since the engine "
+                     f"was created (value left in its RegRef by an earlier engine): expected {spec['expect_last_error']}, got "
+                     f"{r['err'] or 'a successful run'}", rp)
+        return
+    if spec.get("noncomparable"):
+        ctx.tally("oracle:run-option session (patterns differ by design)")
+        # documented rule: keyword > run_options of the programs (later programs of a list overwrite earlier ones) > 1;
+        # a state object for modes=None (all modes) or a non-empty selection (exactly those modes, in that order)
+        kwo, ps, order = spec.get("run_kw") or {}, spec.get("prog_shots") or [None] * k, er.run_order(spec)
+        def eff(ids):
+            v = kwo.get("shots")
+            for i in ids:
+                v = v if kwo.get("shots") is not None else (ps[i] if ps[i] is not None else v)
+            return 1 if v is None else v
+        for pat, groups in (("list", [order]), ("seq", [[i] for i in order])):
+            r = results.get(pat)
+            if r is None:
+                continue
+            for ids, step in zip(groups, r["steps"]):
+                want = eff(ids)
+                got = {c["shots"] for c in step.get("calls", []) if c["name"].startswith("measure_")}
+                ctx.oracle_cases += 1
+                if got - {want}:
+                    ctx.fail("run-option-shots", f"{backend}: run of programs {ids} ({pat}) measured with shots={sorted(got)}; "
+                             f"keyword {kwo.get('shots')}, program run_options {ps} give {want}", rp)
+                if "err" not in step:
+                    st = [c for c in step["calls"] if c["name"] == "state"]
+                    m = kwo.get("modes")
+                    want_state = [] if m == [] else [list(m) if m is not None else []]
+                    if [c["modes"] for c in st] != want_state:
+                        ctx.fail("run-option-modes", f"{backend}: run(modes={m}) queried the state for {[c['modes'] for c in st]}", rp)
+        return
     # ---- (C) the three patterns (+ reset, re-run) end in the same state
     if unmeasured_read(spec):
         ctx.tally("oracle:ill-formed (reads an unmeasured value)")
@@ -412,10 +571,8 @@ def one_session(ctx, sf, spec, reqs, pending, kinds=("list", "seq", "cat", "rese
     ne = sum(1 for s in spec["segs"] if s)
 
     def sig_for(a, b):
-        if "cat" in (a, b) and backend == "bosonic" and ne >= 2:
-            return "bosonic-segment-reinit"
-        if backend == "bosonic" and "reset" in (a, b) and ne >= 2:
-            return "bosonic-segment-reinit"   # run([p0]); reset; run(list): same loss in both, but p0 is re-run
+        if backend == "bosonic" and "cat" in (a, b) and later_nongauss:
+            return "bosonic-nongaussian-later-segment"
         return f"compositional:{a}-vs-{b}:{backend}"
 
     # a post-selection on an outcome of probability zero (e.g. x = 0 on |1>) makes the state NaN in every pattern
@@ -423,6 +580,7 @@ def one_session(ctx, sf, spec, reqs, pending, kinds=("list", "seq", "cat", "rese
             and any(r["err"] is None for r in results.values()):
         ctx.tally("oracle:NaN state in all patterns (zero-probability post-selection)")
         return
+    later_nongauss = any(o["cls"] in ("Fock", "Catstate") for sg in spec["segs"][1:] for o in sg)
     ref = "cat" if "cat" in results else "list"
     for pat in results:
         if pat == ref:
@@ -452,6 +610,44 @@ def one_session(ctx, sf, spec, reqs, pending, kinds=("list", "seq", "cat", "rese
         a, b = results["reset"], results["list"]
         if a["run_ids"] != b["run_ids"]:
             ctx.fail("reset-not-fresh:run_progs", f"{backend}: run_progs after reset+run is {a['run_ids']}, fresh engine {b['run_ids']}", rp)
+
+
+OTHER = {"gaussian": "fock", "fock": "gaussian", "bosonic": "gaussian"}
+
+
+def cross_backend_check(ctx, sf, spec):
+    """the same Program objects run on an engine of one back end and then on an engine of another back end behave, on
+    the second, exactly like freshly built programs (nothing of the first run survives in programs or operations)"""
+    if unmeasured_read(spec) or not all(er.follows(spec)) or \
+            any(er.kind_of(o["cls"]) == "meas" and o.get("select") is None for sg in spec["segs"] for o in sg):
+        return
+    first, second = spec["backend"], OTHER[spec["backend"]]
+    rp = dict(kind="xback", spec=spec)
+    order = er.run_order(spec)
+
+    def run_on(backend, progs):
+        try:
+            res = sf.Engine(backend, backend_options=dict(OPTS[backend])).run([progs[i] for i in order], args=dict(spec["args"]),
+                                                                              compile_options=dict(warn_connected=False))
+            return None, er.state_data(backend, res.state)
+        except Exception as e:  # noqa: BLE001
+            return type(e).__name__, None
+    cache = {} if spec.get("share") else None
+    used = er.build_segments(sf, spec, cache)
+    snaps = [er.snapshot(p) for p in used]
+    run_on(first, used)
+    e1, s1 = run_on(second, used)
+    e2, s2 = run_on(second, er.build_segments(sf, spec, {} if spec.get("share") else None))
+    ctx.oracle_cases += 1
+    ctx.tally(f"xback:{first}->{second}:" + (e1 or "ok"))
+    if e1 != e2 or (e1 is None and not er.state_dist(s1, s2) < STATE_TOL):
+        ctx.fail(f"history-dependent-program:{first}->{second}", f"programs already run on a {first} engine " +
+                 (f"raise {e1}" if e1 else "give a state") + f" on a {second} engine, freshly built ones " +
+                 (f"raise {e2}" if e2 else f"give another state (distance {er.state_dist(s1, s2):.3g})" if e1 is None else "run"), rp)
+    for i, (a, p) in enumerate(zip(snaps, used)):
+        d = er.snap_diff(a, er.snapshot(p))
+        if d:
+            ctx.fail("program-mutated:" + ",".join(d) + ":two-engines", f"running on a {first} and a {second} engine changed {d} of program {i}", rp)
 
 
 def flush(ctx, reqs, pending):
@@ -484,6 +680,27 @@ def reset_and_compile_checks(ctx, sf, spec):
             if c is not None and (c.reg_refs is not p.reg_refs or c.free_params is not p.free_params or c.circuit is p.circuit):
                 ctx.fail("compile-not-linked-copy", f"compile(compiler={comp}): result does not share RegRefs/free parameters "
                          "with, or shares the circuit list of, its source", rp)
+    # compiling is history independent: the same program compiled twice (with another compiler in between) and the
+    # compiled program compiled again give the same circuit; none of these calls changes any of the programs involved
+    def canon(pr):
+        return [(type(c.op).__name__, bool(getattr(c.op, "dagger", False)), tuple(r.ind for r in c.reg), repr(getattr(c.op, "select", None)),
+                 tuple(round(par_value(x, ENV_M, ENV_F), 10) if np.ndim(x) == 0 else repr(x) for x in c.op.p)) for c in pr.circuit]
+    for p in progs:
+        try:
+            c1 = p.compile(compiler=backend, warn_connected=False)
+            s1, k1 = er.snapshot(c1), canon(c1)
+            other = p.compile(compiler="gaussian" if backend != "gaussian" else "bosonic", warn_connected=False)
+            c2 = p.compile(compiler=backend, warn_connected=False)
+            c3 = c1.compile(compiler=backend, warn_connected=False)
+        except Exception:  # noqa: BLE001  (classes the other compiler does not know)
+            continue
+        ctx.oracle_cases += 1
+        if canon(c2) != k1 or canon(c3) != k1:
+            ctx.fail("compile-history-dependent", f"compile(compiler={backend}) gives another circuit the second time / on the "
+                     "compiled program", rp)
+        if er.snap_diff(s1, er.snapshot(c1)):
+            ctx.fail("compile-mutated:compiled-copy", f"a later compile changed {er.snap_diff(s1, er.snapshot(c1))} of an earlier "
+                     "compiled copy of the same program", rp)
     # reset clears measured values of all run programs and the run history
     eng = sf.Engine(backend, backend_options=dict(spec["opts"]))
     try:
@@ -784,15 +1001,18 @@ def flush_heap_decompose(ctx, reqs, pending):
 # ------------------------------------------------------------------ daggered native application is the inverse
 
 def dagger_inverse_checks(ctx, sf):
+    """G followed by G.H (the SAME operation object and its .H, on modes (1, 0)) is the identity for every gate class a
+    back end applies natively or through its decomposition -- the rule "dagger = inverse", not "negate p[0]" """
     from strawberryfields import ops
-    for backend, classes in (("gaussian", ["Dgate", "Sgate", "Rgate", "BSgate"]),
-                             ("bosonic", ["Dgate", "Sgate", "Rgate", "BSgate"]),
-                             ("fock", ["Dgate", "Sgate", "Rgate", "BSgate", "MZgate", "S2gate", "Kgate", "Vgate", "CKgate"])):
+    dec = ["MZgate", "S2gate", "Xgate", "Zgate", "Pgate", "CXgate", "CZgate", "Fouriergate"]
+    for backend, classes in (("gaussian", ["Dgate", "Sgate", "Rgate", "BSgate", "sMZgate"] + dec),
+                             ("bosonic", ["Dgate", "Sgate", "Rgate", "BSgate"] + dec),
+                             ("fock", ["Dgate", "Sgate", "Rgate", "BSgate", "Kgate", "Vgate", "CKgate", "sMZgate"] + dec)):
         for cls in classes:
             two = cls in er.GATES2
             npar = {**er.GATES1, **er.GATES2}[cls]
-            pars = [0.3, 0.45][:npar] if cls in ("MZgate", "BSgate", "Rgate", "Kgate", "CKgate") else [0.1, 0.45][:npar]
-            opts = {"cutoff_dim": 9} if backend == "fock" else {}
+            pars = [0.3, 0.45][:npar] if cls in ("MZgate", "sMZgate", "BSgate", "Rgate", "Kgate", "CKgate") else [0.1, 0.45][:npar]
+            opts = {"cutoff_dim": 10} if backend == "fock" else {}
 
             def build(with_gate):
                 p = sf.Program(2)
@@ -804,14 +1024,79 @@ def dagger_inverse_checks(ctx, sf):
                         g | ((q[1], q[0]) if two else q[1])
                         g.H | ((q[1], q[0]) if two else q[1])
                 return p
-            s0 = er.state_data(backend, sf.Engine(backend, backend_options=opts).run(build(False)).state)
-            s1 = er.state_data(backend, sf.Engine(backend, backend_options=opts).run(build(True)).state)
-            d = er.state_dist(s0, s1)
+            rp = dict(kind="dagger", backend=backend, cls=cls)
             ctx.oracle_cases += 1
             ctx.count("dagger-inverse", dict(backend=backend, cls=cls), True)
+            try:
+                s0 = er.state_data(backend, sf.Engine(backend, backend_options=opts).run(build(False)).state)
+                s1 = er.state_data(backend, sf.Engine(backend, backend_options=opts).run(build(True)).state)
+            except Exception as e:  # noqa: BLE001
+                ctx.fail(f"dagger-run-raised:{cls}:{backend}", f"{backend}: running {cls}; {cls}.H raised {type(e).__name__}: {e}", rp)
+                continue
+            d = er.state_dist(s0, s1)
             if not d < 1e-3:
-                ctx.fail(f"dagger-not-inverse:{cls}:{backend}", f"{backend}: {cls}(..) followed by {cls}(..).H changes the state by {d:.3g}",
-                         dict(kind="dagger", backend=backend, cls=cls))
+                ctx.fail(f"dagger-not-inverse:{cls}:{backend}", f"{backend}: {cls}(..) followed by {cls}(..).H changes the state by {d:.3g}", rp)
+
+
+# ------------------------------------------------------------------ time-domain programs through the engine
+
+def tdm_checks(ctx, sf, rng):
+    """TDM path of the engine (`get_tdm_options`, unroll by the engine, roll-back): the user's TDMProgram is the same
+    before and after `run` (rolled/unrolled state, circuits, shot count, RegRefs, operation objects and their
+    parameters) and a second run -- same engine after reset, or a new engine -- gives the same samples and state"""
+    from lib import tdm_c13 as t13
+    for case in range(ctx.n(4, 16)):
+        N = rng.choice([[1], [2], [1, 2]])
+        C = sum(N)
+        T = rng.randint(2, 4)
+        sel = rng.choice([0.25, -0.5, 0.125])
+        ops_ = [dict(cls="Sgate", regs=[C - 1], pars=["p0", 0.0]),
+                dict(cls="Rgate", regs=[C - 1], pars=["p1"], d=rng.random() < 0.5)]
+        if C >= 2:
+            ops_.append(dict(cls="BSgate", regs=[C - 2, C - 1], pars=[0.375, "p1"], d=rng.random() < 0.5))
+        ops_.append(dict(cls="MeasureHomodyne", regs=[0], pars=[0.0 if rng.random() < 0.5 else "p1"], s=sel))
+        starts = t13.band_starts(N)
+        for b in starts[1:]:
+            ops_.append(dict(cls="MeasureHomodyne", regs=[b], pars=[0.25], s=sel))
+        spec = dict(N=N, shift="default", T=T, ops=ops_,
+                    params=[[round(0.1 * (i + 1), 3) for i in range(T)], [round(0.2 * (i + 1) - 0.3, 3) for i in range(T)]])
+        pre = rng.choice(["rolled", "rolled", "unrolled", "space"])
+        kw = rng.choice([{}, {}, dict(shots=2)]) if pre == "rolled" else {}
+        if kw:      # several shots exclude post-selection: outcomes are random, only shapes are compared
+            for o in spec["ops"]:
+                o["s"] = None
+        rp = dict(kind="tdm", spec=spec, pre=pre, kw=kw)
+        ctx.count("tdm", dict(spec=spec, pre=pre, kw=kw), True)
+        ctx.oracle_cases += 1
+        try:
+            prog = t13.build(sf, spec, share=rng.random() < 0.5)
+            if pre == "unrolled":
+                prog.unroll(shots=1)
+            elif pre == "space":
+                prog.space_unroll(shots=1)
+            before, deep = t13.snapshot(prog), er.snapshot(prog)
+            before["locked"] = True      # running locks the program (documented)
+            eng = sf.Engine("gaussian")
+            r1 = eng.run(prog, **kw)
+            after, deep2 = t13.snapshot(prog), er.snapshot(prog)
+            d = [k for k in before if before[k] != after[k]] + er.snap_diff(deep, deep2)
+            if d:
+                ctx.fail("tdm-program-mutated:" + ",".join(sorted(set(d))), f"running a TDMProgram given {pre} ({kw}) changed {sorted(set(d))}", rp)
+                continue
+            eng.reset()
+            r2 = eng.run(prog, **kw)
+            r3 = sf.Engine("gaussian").run(prog, **kw)
+            s1 = np.asarray(r1.samples, dtype=float)
+            for name, r in (("after reset", r2), ("on a new engine", r3)):
+                sx = np.asarray(r.samples, dtype=float)
+                if sx.shape != s1.shape or (not kw and not np.allclose(sx, s1, atol=1e-9)):
+                    ctx.fail("tdm-rerun-differs", f"second run of the same TDMProgram {name}: samples {sx.tolist()} vs {s1.tolist()}", rp)
+                elif not kw and er.state_dist(er.state_data("gaussian", r.state), er.state_data("gaussian", r1.state)) > STATE_TOL:
+                    ctx.fail("tdm-rerun-differs:state", f"second run of the same TDMProgram {name} ends in another state", rp)
+            if t13.snapshot(prog) != after:
+                ctx.fail("tdm-program-mutated:second-run", "the second and third run changed the TDMProgram", rp)
+        except Exception as e:  # noqa: BLE001
+            ctx.fail(f"tdm-run-raised:{type(e).__name__}", f"TDMProgram given {pre} ({kw}): {type(e).__name__}: {e}", rp)
 
 
 # ------------------------------------------------------------------ corpus, run, replay
@@ -838,15 +1123,24 @@ def run(ctx, sf):
     flush_heap_decompose(ctx, hr, hp)
     dagger_inverse_checks(ctx, sf)
     rng = ctx.rng
+    tdm_checks(ctx, sf, rng)
     n = ctx.n(24, 400)
     for k in range(n):
         for backend in ("gaussian", "fock", "bosonic"):
             spec = gen_session(rng, backend, cross=(k % 4 == 3))
+            if k % 8 == 5 and backend == "bosonic":
+                spec = gen_bosonic_nongauss(rng)
             if k % 6 == 5 and backend != "bosonic":
                 spec = gen_mismatch(rng, backend)
             if k % 6 == 2 and backend != "bosonic":
                 spec = gen_evolving(rng, backend)
+            if k % 6 == 1 and backend != "bosonic":
+                spec = gen_history(rng, backend)
+            if k % 6 == 4:
+                spec = gen_runopts(rng, backend)
             one_session(ctx, sf, spec, reqs, pending)
+            if k % 3 == 1:
+                cross_backend_check(ctx, sf, spec)
             if k % 2 == 0:
                 reset_and_compile_checks(ctx, sf, spec)
                 compile_corr(ctx, sf, spec, creqs, cpending)
@@ -864,7 +1158,12 @@ def replay(ctx, rp):
     import strawberryfields as sf
     n0 = len(ctx.failures)
     ctx.proof_ok = False
-    if rp["kind"] == "session":
+    if rp["kind"] == "tdm":
+        import random
+        tdm_checks(ctx, sf, random.Random(0))
+    elif rp["kind"] == "xback":
+        cross_backend_check(ctx, sf, rp["spec"])
+    elif rp["kind"] == "session":
         one_session(ctx, sf, rp["spec"], [], [])
         reset_and_compile_checks(ctx, sf, rp["spec"])
     elif rp["kind"] == "heap-apply":
